@@ -144,6 +144,10 @@ pub fn collect_sources<FS: FileSystem>(
     while let Some(file_id) = files.pop_front() {
         #[cfg(feature = "verif")]
         syntax::verif::tick(syntax::verif::Tick::IncludeWalk);
+        // a file reached along several paths, or through an include cycle, is walked once
+        if file_set.contains(&file_id) {
+            continue;
+        }
         let parse = db.parse(file_id);
 
         let file_path = fs.path_for_file(&file_id);
